@@ -13,6 +13,10 @@ CHECKS = {
          'As C01; the floor (minimum + number of raises) is an invariant of every explored model state and of every recorded real step.'),
  'C05': (MC, '6 (C05)', 'TLC closure of Controller.tla with ThirdParty environment action + TLC trace validation of real controllers with registers rewritten between cycles',
          'Every interference point between cycles in the model; sampled interference on the real controller, registers and counter checked after every cycle.'),
+ 'C03': (MC, '6 (C03)', 'TLC exhaustive check of Daemon.tla (signals x phases x original mode/PWM x restore-write outcomes) + TLC monitoring (Monitor_Daemon: variables bound to the observed state, DaemonProps formulas) of the real controller.Run in synctest bubbles and of the real daemon process under real signals',
+         'Every interleaving of up to 3 signals with every controller phase and every combination of refused/ignored restore writes in the model; the real controllers are cancelled at every phase with injected driver outcomes, the real daemon is killed with 1-3 real signals; the final registers of every run are checked.'),
+ 'C04': (MC, '6 (C04)', 'TLC closure of MC_C04 (cycle closed through exact direct / rate-limited / default-PID loop models, arbitrary prior curve trajectories) + TLC trace validation (exact loop conformance, settle/steady/step formulas) of real controllers under the fake clock',
+         'Settling bound K(alg), steady value, step bound, monotone approach and bounded PID integral hold in every state of the closed model (all histories over {0,c,255}); the real loops conform step by step to the exact model.'),
  'C10': (MC, '6 (C10)', 'TLC exhaustive exact-arithmetic model MC_C10 (smoothing x plant thresholds x windows) + TLC trace validation of real controllers behind stalling plants',
          'Bounded-response (12n+2 polls), step-by-step progress and termination checked exhaustively on the exact model and on every recorded real step.'),
 }
